@@ -13,7 +13,7 @@ EXPLANATION = (
     "the contended builds the contention pattern starts with that many 4-T fetches at consecutive PC addresses; DD/FD and DDCB/FDCB tables are "
     "register-substitution images of each other. Table-definition rules (C05.T*) constant-fold every simtables.py comprehension and every C "
     "init_* loop nest and compare all entries with each other and with an independent reference model of the Z80 flag semantics. "
-    "Not decided: numerical correctness of flag arithmetic written inline in handlers (adc_hl, cpi, ini, ...) beyond four-way agreement (C06).")
+    "Rule C05.5 evaluates every slot's extracted value terms on sampled machine states against an independent one-instruction reference model of the Z80 (sa/rules/z80isa.py): registers, documented flags, PC/SP/R, IFF/IM/HALT, memory and port writes, T-states; it reports deviations all four implementations share. Not decided: equality with the reference for *all* states of the instructions whose arithmetic is written inline (16-bit ADD/ADC/SBC, block instructions) - the reference comparison samples them; undocumented flag bits of block I/O and of BIT n,(HL)/(IX+d) are not vouched for.")
 
 REG8 = {'A': 0, 'F': 1, 'B': 2, 'C': 3, 'D': 4, 'E': 5, 'H': 6, 'L': 7, 'IXh': 8, 'IXl': 9, 'IYh': 10, 'IYl': 11, 'I': 14, 'R': 15}
 PAIR = {'BC': (2, 3), 'DE': (4, 5), 'HL': (6, 7), 'IX': (8, 9), 'IY': (10, 11), 'AF': (0, 1), 'SP': (13, 12)}
@@ -321,6 +321,8 @@ def run(ctx):
     sibling_rule(ctx, m)
     from sa.rules import C05tables
     C05tables.run(ctx, repo, m)
+    from sa.rules import C05isa
+    C05isa.run(ctx, m)
     from sa.rules.C06 import compare_slots
     ctx.rule('C05.4-agreement', 'the four implementations of every slot agree (a deviation of one body from the Z80 semantics is a deviation from its siblings)', floor=2200)
     compare_slots(ctx, m, (('py', 'cp'), ('cm', 'cc')), 'C05.4-agreement')
